@@ -41,6 +41,8 @@ func init() {
 			Expect: []string{"timeout.arm"}, Note: "configured timeout ignored"},
 		Mutant{ID: "C09-chunk-eof", Prop: "C09", File: fd, Old: "\t\t\tif errors.Is(err, io.EOF) && offs > 0 {", New: "\t\t\tif errors.Is(err, io.EOF) && offs > numBytes {",
 			Expect: []string{"eof.chunk"}, Note: "EOF inside a prefix/message reported as clean EOF"},
+		Mutant{ID: "C09-chunk-eof-lastread", Prop: "C09", File: fd, Old: "\t\t\tif errors.Is(err, io.EOF) && offs > 0 {", New: "\t\t\tif errors.Is(err, io.EOF) && numRead > 0 {",
+			Expect: []string{"eof.chunk"}, Note: "seed C10-3: tests the size of the last read instead of the accumulated offset; (0, EOF) after a partial prefix is a clean end"},
 		Mutant{ID: "C09-wrong-length", Prop: "C09", File: fd, Old: "uint32(len(data)))", New: "uint32(cap(data)))",
 			Expect: []string{"prefix-agree"}, Note: "prefix announces capacity, not length"},
 	)
@@ -147,131 +149,7 @@ func runC09(p *Prog, r *Report) {
 	}
 
 	// ---- eof ----
-	isErrorsIsEOF := func(c *ssa.CallCommon) bool {
-		if !isCallToNamed(c, "errors", "", "Is") {
-			return false
-		}
-		g, ok := canon(c.Args[1]).(*ssa.UnOp)
-		if !ok {
-			return false
-		}
-		gl, ok := g.X.(*ssa.Global)
-		return ok && gl.Name() == "EOF" && gl.Pkg.Pkg.Path() == "io"
-	}
-	isUnexpected := func(v ssa.Value) bool {
-		g, ok := canon(v).(*ssa.UnOp)
-		if !ok {
-			return false
-		}
-		gl, ok := g.X.(*ssa.Global)
-		return ok && gl.Name() == "ErrUnexpectedEOF" && gl.Pkg.Pkg.Path() == "io"
-	}
-	eofRewrite := func(key string, fn *ssa.Function, after ssa.Instruction, extra func([]Atom) bool, what string) {
-		r.Sites++
-		// a store of io.ErrUnexpectedEOF on the errors.Is(err, io.EOF) edge …
-		var rewrite ssa.Instruction
-		eachInstr(fn, func(in ssa.Instruction) {
-			st, ok := in.(*ssa.Store)
-			if !ok || !isUnexpected(st.Val) {
-				return
-			}
-			as := atomsAt(in.Block())
-			if hasAtom(as, func(a Atom) bool { m, v := boolTestOn(a, isCallResult(isErrorsIsEOF)); return m && v }) && (extra == nil || extra(as)) {
-				if after == nil || reachesInstr(after, in) {
-					rewrite = in
-				}
-			}
-		})
-		if rewrite == nil {
-			r.Fail(key, "R-GUARD", p.Pos(fn.Pos()), what+": io.EOF is not rewritten to io.ErrUnexpectedEOF (a stream that ends inside a prefix or message would be reported as a clean end or shorter input)")
-			return
-		}
-		// … and the errors.Is test cannot be bypassed after the read
-		if after != nil {
-			ok, exit := mustPass(after, func(in ssa.Instruction) bool { c := callCommon(in); return c != nil && isErrorsIsEOF(c) })
-			if !ok {
-				r.Fail(key, "R-MUSTCALL", p.InstrPos(exit), what+": the function can return after the payload read without testing for io.EOF")
-				return
-			}
-		}
-		r.OK(key, "R-GUARD", p.InstrPos(rewrite), what+": EOF → ErrUnexpectedEOF on the errors.Is(err, io.EOF) edge")
-	}
-	if readerClosure != nil {
-		eofRewrite("eof.reader", readerClosure, sizeRead, nil, "runner reader, payload phase")
-	}
-	// err is a register variable in read and DecodeNext: the rewrite is a phi edge
-	eofPhi := func(key string, fn *ssa.Function, after ssa.Instruction, extra func([]Atom) bool, what string) {
-		r.Sites++
-		var found *ssa.Phi
-		eachInstr(fn, func(in ssa.Instruction) {
-			phi, ok := in.(*ssa.Phi)
-			if !ok {
-				return
-			}
-			for i, e := range phi.Edges {
-				if !isUnexpected(e) {
-					continue
-				}
-				as := edgeAtoms(phi.Block().Preds[i], phi.Block())
-				if hasAtom(as, func(a Atom) bool { m, v := boolTestOn(a, isCallResult(isErrorsIsEOF)); return m && v }) && (extra == nil || extra(as)) {
-					found = phi
-				}
-			}
-		})
-		if found == nil {
-			r.Fail(key, "R-GUARD", p.Pos(fn.Pos()), what+": io.EOF is not rewritten to io.ErrUnexpectedEOF (a stream that ends inside a prefix or message would be reported as a clean end or shorter input)")
-			return
-		}
-		// every non-nil error return reachable after `after` returns the rewritten value
-		ok := true
-		for _, ret := range returnsOf(fn) {
-			idx := len(ret.Results) - 1
-			if idx < 0 {
-				continue
-			}
-			v := ret.Results[idx]
-			if isNilConst(v) {
-				continue
-			}
-			if after != nil && !reachesInstr(after, ret) {
-				continue
-			}
-			if after == nil && v != ssa.Value(found) {
-				// read(): the only error return is the rewritten one
-				if _, isCall := v.(*ssa.Call); isCall {
-					continue
-				}
-				ok = false
-			}
-			if after != nil {
-				// a return of the raw error of `after` (not passing through the phi) is a bypass
-				if ex, isEx := v.(*ssa.Extract); isEx && ex.Tuple == after.(ssa.Value) {
-					ok = false
-				}
-			}
-		}
-		r.Check(ok, key, "R-GUARD", p.InstrPos(found), what+": EOF → ErrUnexpectedEOF on the errors.Is(err, io.EOF) edge, and that is the error returned", what+": the function can return the raw read error without the EOF rewrite")
-	}
-	eofPhi("eof.chunk", read, nil, func(as []Atom) bool {
-		return hasAtom(as, func(a Atom) bool {
-			if a.Op != token.GTR {
-				return false
-			}
-			z, isZ := constInt(a.Y)
-			return isZ && z == 0
-		})
-	}, "runner reader, chunk loop (offs > 0)")
-	var fulls []ssa.Instruction
-	eachInstr(dec, func(in ssa.Instruction) {
-		if c := callCommon(in); c != nil && isCallToNamed(c, "io", "", "ReadFull") {
-			fulls = append(fulls, in)
-		}
-	})
-	if len(fulls) == 2 {
-		eofPhi("eof.protoDecoder", dec, fulls[1], nil, "peers' binary decoder, payload read")
-	} else {
-		r.Undecided("eof.protoDecoder", "R-GUARD", fmt.Sprintf("expected two io.ReadFull calls in DecodeNext, found %d", len(fulls)))
-	}
+	framingEOFRules(p, r)
 
 	// ---- prefix-agree ----
 	okOrder := true
@@ -454,4 +332,167 @@ func runC09(p *Prog, r *Report) {
 		Table: map[string]string{
 			"(*internal.jsonEncoder).Encode#index:j.opts.Marshal(msg)#0[(len(j.opts.Marshal(msg)#0) - 1)]": "evaluated only when len(data) == 0 (the `||` should be `&&`), which protojson.Marshal never produces (a message renders at least as `{}`); latent, unreachable with the library's contract — kept as a table row, not a property violation",
 		}})
+}
+
+// framingEOFRules: an end of input inside a prefix or message is rewritten to
+// io.ErrUnexpectedEOF before it is returned (runner reader payload phase, its
+// chunk loop, the peers' binary decoder). Shared by C09 (framing) and C10 (the
+// client multiplexer's reader tells a clean end from a truncated stream by
+// exactly this classification).
+func framingEOFRules(p *Prog, r *Report) {
+	read := p.Func("internal", "timeoutDelimitedReader", "read")
+	dec := p.Func("internal", "protoDecoder", "DecodeNext")
+	if read == nil || dec == nil {
+		r.Undecided("eof.scope", "R-GUARD", "framing functions not found")
+		return
+	}
+	r.Func(funcName(read))
+	r.Func(funcName(dec))
+	var readerClosure *ssa.Function
+	var sizeRead *ssa.Call
+	for _, fn := range p.RepoFuncs() {
+		for _, c := range findInstrs(fn, isCallObj(funcObj(read))) {
+			if _, isC := constInt(callCommon(c).Args[1]); !isC {
+				readerClosure, sizeRead = fn, c.(*ssa.Call)
+			}
+		}
+	}
+	isErrorsIsEOF := func(c *ssa.CallCommon) bool {
+		if !isCallToNamed(c, "errors", "", "Is") {
+			return false
+		}
+		g, ok := canon(c.Args[1]).(*ssa.UnOp)
+		if !ok {
+			return false
+		}
+		gl, ok := g.X.(*ssa.Global)
+		return ok && gl.Name() == "EOF" && gl.Pkg.Pkg.Path() == "io"
+	}
+	isUnexpected := func(v ssa.Value) bool {
+		g, ok := canon(v).(*ssa.UnOp)
+		if !ok {
+			return false
+		}
+		gl, ok := g.X.(*ssa.Global)
+		return ok && gl.Name() == "ErrUnexpectedEOF" && gl.Pkg.Pkg.Path() == "io"
+	}
+	eofRewrite := func(key string, fn *ssa.Function, after ssa.Instruction, extra func([]Atom) bool, what string) {
+		r.Sites++
+		// a store of io.ErrUnexpectedEOF on the errors.Is(err, io.EOF) edge …
+		var rewrite ssa.Instruction
+		eachInstr(fn, func(in ssa.Instruction) {
+			st, ok := in.(*ssa.Store)
+			if !ok || !isUnexpected(st.Val) {
+				return
+			}
+			as := atomsAt(in.Block())
+			if hasAtom(as, func(a Atom) bool { m, v := boolTestOn(a, isCallResult(isErrorsIsEOF)); return m && v }) && (extra == nil || extra(as)) {
+				if after == nil || reachesInstr(after, in) {
+					rewrite = in
+				}
+			}
+		})
+		if rewrite == nil {
+			r.Fail(key, "R-GUARD", p.Pos(fn.Pos()), what+": io.EOF is not rewritten to io.ErrUnexpectedEOF (a stream that ends inside a prefix or message would be reported as a clean end or shorter input)")
+			return
+		}
+		// … and the errors.Is test cannot be bypassed after the read
+		if after != nil {
+			ok, exit := mustPass(after, func(in ssa.Instruction) bool { c := callCommon(in); return c != nil && isErrorsIsEOF(c) })
+			if !ok {
+				r.Fail(key, "R-MUSTCALL", p.InstrPos(exit), what+": the function can return after the payload read without testing for io.EOF")
+				return
+			}
+		}
+		r.OK(key, "R-GUARD", p.InstrPos(rewrite), what+": EOF → ErrUnexpectedEOF on the errors.Is(err, io.EOF) edge")
+	}
+	if readerClosure != nil {
+		eofRewrite("eof.reader", readerClosure, sizeRead, nil, "runner reader, payload phase")
+	} else {
+		r.Undecided("eof.reader", "R-GUARD", "the payload read(size) call of the runner's reader was not found")
+	}
+	// err is a register variable in read and DecodeNext: the rewrite is a phi edge
+	eofPhi := func(key string, fn *ssa.Function, after ssa.Instruction, extra func([]Atom) bool, what string) {
+		r.Sites++
+		var found *ssa.Phi
+		eachInstr(fn, func(in ssa.Instruction) {
+			phi, ok := in.(*ssa.Phi)
+			if !ok {
+				return
+			}
+			for i, e := range phi.Edges {
+				if !isUnexpected(e) {
+					continue
+				}
+				as := edgeAtoms(phi.Block().Preds[i], phi.Block())
+				if hasAtom(as, func(a Atom) bool { m, v := boolTestOn(a, isCallResult(isErrorsIsEOF)); return m && v }) && (extra == nil || extra(as)) {
+					found = phi
+				}
+			}
+		})
+		if found == nil {
+			r.Fail(key, "R-GUARD", p.Pos(fn.Pos()), what+": io.EOF is not rewritten to io.ErrUnexpectedEOF (a stream that ends inside a prefix or message would be reported as a clean end or shorter input)")
+			return
+		}
+		// every non-nil error return reachable after `after` returns the rewritten value
+		ok := true
+		for _, ret := range returnsOf(fn) {
+			idx := len(ret.Results) - 1
+			if idx < 0 {
+				continue
+			}
+			v := ret.Results[idx]
+			if isNilConst(v) {
+				continue
+			}
+			if after != nil && !reachesInstr(after, ret) {
+				continue
+			}
+			if after == nil && v != ssa.Value(found) {
+				// read(): the only error return is the rewritten one
+				if _, isCall := v.(*ssa.Call); isCall {
+					continue
+				}
+				ok = false
+			}
+			if after != nil {
+				// a return of the raw error of `after` (not passing through the phi) is a bypass
+				if ex, isEx := v.(*ssa.Extract); isEx && ex.Tuple == after.(ssa.Value) {
+					ok = false
+				}
+			}
+		}
+		r.Check(ok, key, "R-GUARD", p.InstrPos(found), what+": EOF → ErrUnexpectedEOF on the errors.Is(err, io.EOF) edge, and that is the error returned", what+": the function can return the raw read error without the EOF rewrite")
+	}
+	eofPhi("eof.chunk", read, nil, func(as []Atom) bool {
+		return hasAtom(as, func(a Atom) bool {
+			if a.Op != token.GTR {
+				return false
+			}
+			z, isZ := constInt(a.Y)
+			if !isZ || z != 0 {
+				return false
+			}
+			// the tested count is the ACCUMULATED offset (loop counter + this read), not
+			// the size of the last read: an EOF is usually delivered as (0, io.EOF)
+			add, isAdd := canon(a.X).(*ssa.BinOp)
+			if !isAdd || add.Op != token.ADD {
+				return false
+			}
+			_, phiL := canon(add.X).(*ssa.Phi)
+			_, phiR := canon(add.Y).(*ssa.Phi)
+			return phiL || phiR
+		})
+	}, "runner reader, chunk loop (accumulated offset > 0)")
+	var fulls []ssa.Instruction
+	eachInstr(dec, func(in ssa.Instruction) {
+		if c := callCommon(in); c != nil && isCallToNamed(c, "io", "", "ReadFull") {
+			fulls = append(fulls, in)
+		}
+	})
+	if len(fulls) == 2 {
+		eofPhi("eof.protoDecoder", dec, fulls[1], nil, "peers' binary decoder, payload read")
+	} else {
+		r.Undecided("eof.protoDecoder", "R-GUARD", fmt.Sprintf("expected two io.ReadFull calls in DecodeNext, found %d", len(fulls)))
+	}
 }
